@@ -84,7 +84,16 @@ def gen_layout_file(d, name):
             blocks.append(["err", d.int(1, 2)])
         else:
             blocks.append(["move", d.int(1, 3)])
-    return dict(name=name, blocks=blocks, fwzp=d.bool(0.8))
+    f = dict(name=name, blocks=blocks, fwzp=d.bool(0.8))
+    if d.bool(0.3):
+        # an error that is only raised when a pass ends (open construct), in every pass or in the first one only
+        f["tail"] = [d.choice(LTAILS_K), d.choice(["all", "first"])]
+    return f
+
+
+# errors of the end of a pass for multi-pass sources
+LTAILS = {"if": "\tif 1", "section": "\tsection ts", "save": "\tsave", "struct": "tst\tstruct", "switch": "\tswitch 1"}
+LTAILS_K = sorted(LTAILS)
 
 
 def render_layout(f):
@@ -101,6 +110,12 @@ def render_layout(f):
         else:
             L += ["\tlda fw"] * b[1] + ["m%d:\tnop" % i, "\tjmp m%d" % i]
     L.append("fw\tequ %s" % ("$10" if f["fwzp"] else "$1010"))
+    if f.get("tail"):
+        if f["tail"][1] == "first":
+            L += ["\tif mompass=1", LTAILS[f["tail"][0]], "\tendif"] if f["tail"][0] not in ("if", "switch") else \
+                ["\tif mompass=1", "\tsave", "\tendif"]
+        else:
+            L.append(LTAILS[f["tail"][0]])
     return "\n".join(L) + "\n"
 
 
@@ -305,13 +320,45 @@ def execute_layout(case):
     nerr = sum(per.values())
     # errors without a source position (raised while the default target is set up): they belong to every source
     nint = len(re.findall(r"^(?:> > > )?INTERNAL[^\n]*?: (?!warning)", chan, re.M))
+    tailed = [f["name"] for f in files if f.get("tail")]
+    nsetup = len(re.findall(r"^(?:> > > )?INTERNAL:\d+[^\n]*?: (?!warning)", chan, re.M)) + \
+        len(re.findall(r"^(?:> > > )?INTERNAL:\d+ #", chan, re.M))
+    if nsetup:
+        tailed = []         # the default target was refused: nothing is assembled at all
+    if nint and tailed:
+        # end-of-pass diagnostics (open construct): one per source that leaves a construct open, that source has no
+        # code file, the others are judged by their own error lines, the summaries add up
+        classes += ["error-without-position", "end-of-pass-error"]
+        key = "layout|end-of-pass|%s|%s" % (",".join(sorted(f["tail"][0] + f["tail"][1] for f in files if f.get("tail"))),
+                                             ",".join(sorted(k for k, v in o.items() if v and k not in ("E", "x"))) + o["E"])
+        if r.status != 2:
+            return engine.bad("exit status %s although %d end-of-pass errors were printed" % (r.status, nint), key, classes,
+                              chan=chan[:600], **detail)
+        if nint != len(tailed):
+            return engine.bad("%d end-of-pass errors printed for %d sources that leave a construct open" % (nint, len(tailed)),
+                              key, classes, chan=chan[:600], **detail)
+        for f in files:
+            want = per[f["name"]] == 0 and f["name"] not in tailed
+            if exists[f["name"]] != want:
+                return engine.bad("code file of %s %s (%d positioned errors, construct left open: %s)"
+                                  % (f["name"], "exists" if exists[f["name"]] else "is missing", per[f["name"]],
+                                     f["name"] in tailed), key, classes, chan=chan[:600], **detail)
+        if not o["q"]:
+            errs = [int(x) for x in re.findall(r"^\s*(\d+) errors?\s*$", r.out, re.M)]
+            if sum(errs) != nerr + nint or len(errs) != len(files):
+                return engine.bad("summaries say %s errors, %d positioned and %d end-of-pass error lines were printed"
+                                  % (errs, nerr, nint), key, classes, chan=chan[:600], **detail)
+        return engine.ok(key, classes)
+    if tailed:
+        return engine.bad("sources %s leave a construct open, no end-of-pass error was printed (status %s)"
+                          % (tailed, r.status), None, classes, chan=chan[:600], **detail)
     if nint:
         classes.append("error-without-position")
         if r.status == 0 or any(exists.values()):
             return engine.bad("%d errors without source position were printed, exit status %s, code files %s"
                               % (nint, r.status, sorted(k for k, v in exists.items() if v)), None, classes,
                               chan=chan[:600], **detail)
-        return engine.ok("layout|error-without-position|" + o["cpuopt"], classes)
+        return engine.ok("layout|error-without-position|" + str(o.get("cpuopt") or ""), classes)
     nt = []
     if nerr:
         nt.append("errors")
